@@ -216,6 +216,9 @@ func newRun(j *job) *run {
 	r := &run{j: j, in: in, db: db, conns: map[int]*net.Conn{}, gids: map[int64]int{},
 		events: make(chan event, 64)}
 	r.free.Store(true)
+	// the asynchronous goroutines the keyspace calls start (cache update, and whatever else a change makes them do) are held
+	// back until the commands are over: their effect must not depend on when they run
+	db.VerifCachePark(true, 0)
 	for _, s := range j.setups {
 		switch s.kind {
 		case "N":
@@ -388,6 +391,7 @@ func (r *run) result() string {
 		}
 		parts[i] = fmt.Sprintf("%d:%s", t.id, r.outcome[i])
 	}
+	r.db.VerifCacheQuiesce(ts(3 * time.Second))
 	return strings.Join(parts, " ") + " | " + r.db.VerifDigest()
 }
 
